@@ -193,7 +193,7 @@ func mutateValue(r *vlib.R, g *genType, a reflect.Value, maxLen int) reflect.Val
 
 func runC10(tier string, _ []string) int {
 	c := vlib.NewCtx("C10", tier, "exploration")
-	c.SetRule("types: random configuration struct types built with reflect.StructOf (scalars of all 14 kinds, *scalar, *flat struct, flat structs with optional (*scalar) fields, []scalar, [N]scalar, map[string]scalar, flat struct; point/edgepoint tags; node id/parent; child slices up to 2 levels) plus one hand-written static type through the typed API; values: PRNG within documented limits (<=1000 elements, |int|<=2^53-1, non-empty map keys), hostile strings, floats by bit pattern (float64 NaN payloads, canonical float32 NaN). Case = Decode(Encode(a))==a then Merge(Decode(Encode(a)), Diff(a,b))==b for b random or a small edit of a (shrink/grow slice, remove/add map entry, pointer to nil and back, optional fields inside a flat struct to nil while the struct stays); half of the cases continue as a chain of up to 3 further diffs merged into the same value. distinct = (set of field shapes present in the type, diff kind)")
+	c.SetRule("types: random configuration struct types built with reflect.StructOf (scalars of all 14 kinds, *scalar, *flat struct, flat structs with optional (*scalar) fields, []scalar, [N]scalar, map[string]scalar, flat struct; point/edgepoint tags; node id/parent; child slices up to 2 levels) plus one hand-written static type through the typed API; values: PRNG within documented limits (<=1000 elements, |int|<=2^53-1, non-empty map keys), hostile strings, floats by bit pattern (float64 NaN payloads, canonical float32 NaN). Case = Decode(Encode(a))==a then Merge(Decode(Encode(a)), Diff(a,b))==b for b random or a small edit of a (shrink/grow slice, remove/add map entry, pointer to nil and back, optional fields inside a flat struct to nil while the struct stays); half of the cases continue as a chain of up to 3 further diffs merged into the same value; for types with children a second value is decoded into a destination that has been decoded into before: its children must be those of the second input. distinct = (set of field shapes present in the type, diff kind)")
 	c.Assume("equality: nil == empty for slices/maps; a pointer to a struct whose fields are all optional and nil == nil pointer (both are tombstone points only); floats by bits for Encode/Decode, numerically (+0==-0, NaN==NaN) after Diff/Merge because a diff can only see == differences; times of generated points are not compared (Diff stamps time.Now)")
 	c.Assume("a and b agree on edge-point fields, node id/parent and children: DiffPoints is documented to describe node points only")
 	nVals := c.N(100000, 1000000)
@@ -322,6 +322,26 @@ func runC10(tier string, _ []string) int {
 				}
 			}
 			c.Distinct("rt " + shapes)
+
+			// the next caller: a destination that has been decoded into before gets its children from the
+			// second input alone (child lists are rebuilt, never merged position by position)
+			if g.Child != nil {
+				a2 := genConfigValue(r, g, 8, id)
+				tree2, err := encodeTree(g, a2)
+				used := reflect.New(g.T).Elem()
+				if err == nil && data.Decode(tree, used) == nil && data.Decode(tree2, used) == nil {
+					for fi, f := range g.Fields {
+						if f.Shape != "child" || a2.Field(fi).Len() == 0 {
+							continue // (an input without children of the type leaves the field alone, like a missing point)
+						}
+						if d := eqVal(a2.Field(fi), used.Field(fi), "."+f.Name); d != "" {
+							c.Violate("config:second-decode-keeps-earlier-children", "children after a second Decode into the same destination differ from the second input at "+d, wit(map[string]any{"second_input": showVal(a2), "got": showVal(used)}))
+							return
+						}
+					}
+					c.Count("second_decodes_into_a_used_destination", 1)
+				}
+			}
 
 			// diff / merge
 			var b reflect.Value
